@@ -957,7 +957,12 @@ class Runner(IOOpsMixin):
             ratio = fv[ok] / mv[ok]
             f0 = float(numpy.median(ratio))
             dev = float(numpy.max(numpy.abs(ratio / f0 - 1))) if f0 != 0 else math.inf
-            if dev > 1e-12:
+            # "to the printed precision": the tables carry 16 significant digits today (tolerance 1e-12); should a version of cij print fewer,
+            # the tolerance follows the coarsest relative precision actually printed
+            toks = [tk for row in t["val_tok"] for tk in row]
+            printed = max([TB._decimals_tol(tk) / abs(TB.tok_float(tk)) for tk in toks if TB.tok_float(tk) == TB.tok_float(tk) and abs(TB.tok_float(tk)) > 1e-290
+                           and not math.isinf(TB.tok_float(tk))] + [0.0])
+            if dev > max(1e-12, 4.0 * printed):
                 jj = int(numpy.argmax(numpy.abs(ratio / f0 - 1)))
                 self.verdict("O-disk", "C15", client, i,
                              f"{tag}{relp} ({e['kw']}): file/in-memory ratio is not one constant: spread {dev:.3e} (median {f0!r})",
